@@ -185,6 +185,14 @@ theorem run_empty (e : El σ α β) (c : Cfg) (s : σ) : (runFR e c s []).1 = []
         · rfl
         · rename_i h0; rw [dif_pos (by simp; omega)]
 
+/-- `run_blocks` for whatever `FillRequest.__init__` accepts (no hypothesis on the block size left to the reader).
+For `bufsize = 0` — rejected by `__init__` — the model's loops stop where Python's would spin; `run_empty` below is
+stated for every `Cfg` and says nothing about the code for such a configuration. -/
+theorem run_blocks_init (caps : Caps) (bufsize : Int) (reset : Option Bool) (bi bo yor : Bool) (c : Cfg)
+    (h : mkFillRequest caps bufsize reset bi bo yor = .ok c) (e : El σ α β) (s : σ) (xs : List α) :
+    (runFR e c s xs).1 = specBlocks (blockOf e c) e.reset c.bufsize c.reset c.yor s (chunks c.bufsize xs) :=
+  run_blocks e c (init_bufsize_pos caps bufsize reset bi bo yor c h).1 s xs
+
 /-! ### `fill` / `request` under an arbitrary schedule -/
 
 /-- the element's `run` on a block is "fill every value, then request" — the consistency an element
@@ -233,6 +241,22 @@ theorem schedule_independent (e : El σ α β) (c : Cfg) (hN : 0 < c.bufsize) (h
   rw [runFR_eq_runFillCompute e c hN hrun, hy]
   exact schedule_runFillCompute e _ _ _ hN el ops
 
+/-- the clause without the hypothesis on elements that have both `run` and `fill`/`request` -/
+def schedule_independent_full : Prop :=
+  ∀ (e : El (List Nat) Nat (List Nat)) (c : Cfg) (el : List Nat) (ops : List (Op Nat)), 0 < c.bufsize → c.yor = false →
+    (runOps e c.bufsize c.reset c.bufferInput c.yor (ops ++ [.request]) (St.init el)).1.flatten = (runFR e c el (fills ops)).1
+
+/-- **It is false, and has to be**: `run` of such an adapter calls the element's `run`, the other path its `fill` and
+`request` — two unrelated pieces of code of an arbitrary element.  Witness: the recording element with a `run` that
+yields nothing.  Hence the hypothesis `RunConsistent` in `schedule_independent` (no hypothesis for fill/compute and
+fill/request elements, whose `run` is `_run_fill_compute`). -/
+theorem not_schedule_independent_full : ¬ schedule_independent_full := by
+  intro h
+  have := h { lstEl with run := fun s _ => ([], s) }
+    ⟨1, false, true, false, .runRun, true, true, true, false⟩ [] [.fill 0] (by decide) rfl
+  revert this
+  decide +kernel
+
 /-- non-vacuity: requests after 1, 4 and 6 of the fills `0..6`, block size 3, reset on, buffer_input -/
 example : (runOps lstEl 3 true true false
       ([.fill 0, .request, .fill 1, .fill 2, .fill 3, .request, .fill 4, .fill 5, .request, .fill 6] ++ [.request])
@@ -257,6 +281,11 @@ after `request()` yields nothing (`yield_on_remainder` off) -/
 theorem request_idempotent (e : El σ α β) (N : Nat) (rst bi : Bool) (hN : 0 < N) (s : St σ α β) (h : FRInv N bi s) :
     (requestR e N rst bi false (requestR e N rst bi false s).2) = ([], (requestR e N rst bi false s).2) :=
   request_normal e N rst bi _ (request_yields_normal e N rst bi false hN s h).1
+
+/-- the hypothesis of `request_idempotent` is satisfiable: a fresh adapter satisfies the invariant, and so does every
+reachable state (`runOps_inv`) -/
+example : FRInv 3 true (St.init ([] : List Nat) : St (List Nat) Nat (List Nat)) :=
+  normal_inv true (init_normal 3 (by decide) [])
 
 /-! ### Split around a `FillRequest` branch -/
 
@@ -326,6 +355,18 @@ theorem split_equals_run (e : El σ α β) (c : Cfg) (hN : 0 < c.bufsize) (hy : 
 
 
 
+
+/-- `schedule_independent` and `split_equals_run` for whatever `FillRequest.__init__` accepts with
+`yield_on_remainder=False` -/
+theorem schedule_independent_init (caps : Caps) (bufsize : Int) (reset : Option Bool) (bi bo : Bool) (c : Cfg)
+    (h : mkFillRequest caps bufsize reset bi bo false = .ok c) (e : El σ α β)
+    (hrun : c.runKind = .runRun → RunConsistent e) (el : σ) (ops : List (Op α)) (m : Option Nat) (hm : m ≠ some 0)
+    (xs : List α) :
+    (runOps e c.bufsize c.reset c.bufferInput c.yor (ops ++ [.request]) (St.init el)).1.flatten =
+        (runFR e c el (fills ops)).1 ∧
+    splitFR e c.bufsize c.reset c.bufferInput c.yor m el xs = (runFR e c el xs).1 := by
+  obtain ⟨hN, _, hy, _⟩ := init_bufsize_pos caps bufsize reset bi bo false c h
+  exact ⟨schedule_independent e c hN hy hrun el ops, split_equals_run e c hN hy hrun m hm el xs⟩
 
 /-- `Split(bufsize=2)` around `FillRequest(bufsize=3)` — the case that lost values before the fix —
 and a Split block larger than two adapter blocks (`buffer_output`: the case that used to hang) -/
@@ -427,9 +468,34 @@ example : (runOps lstEl 3 true false true [.fill 0, .fill 1, .fill 2, .fill 3, .
 
 /-! ### buffers -/
 
+/-- **The clause as the property words it**, read literally: after *every* call — wherever `request()` is called — at
+most one block of values (`_buffer_in`) or of results (`_buffer_out`; the recording element yields one result per block)
+is buffered. -/
+def buffers_one_block_full : Prop :=
+  ∀ (N : Nat) (bi : Bool) (ops : List (Op Nat)), 0 < N →
+    ((runOps (lstEl : El (List Nat) Nat (List Nat)) N true bi false ops (St.init [])).2.bufIn.length ≤ N ∧
+     (runOps (lstEl : El (List Nat) Nat (List Nat)) N true bi false ops (St.init [])).2.bufOut.length ≤ 1)
+
+/-- **It is false** — of the model and of the code (judgement: the buffers hold whatever is filled between two
+`request()` calls; the property's own quantifier includes Split block sizes larger than the adapter's): ten fills at
+block size 3 leave 7 values in `_buffer_in` (`buffer_input`) / the results of 3 blocks in `_buffer_out`
+(`buffer_output`).  What holds is `buffers_bounded_partial` (right after `request()`: nothing buffered) and
+`buffers_bounded_between_partial` (between requests: exactly the values filled since, in whole blocks; at most one block
+when at most `n` values are filled between two requests). -/
+theorem not_buffers_one_block_full : ¬ buffers_one_block_full := by
+  intro h
+  have := (h 3 true ((List.range 10).map Op.fill) (by decide)).1
+  revert this
+  decide
+
+example : (runOps (lstEl : El (List Nat) Nat (List Nat)) 3 true true false ((List.range 10).map Op.fill) (St.init [])).2.bufIn
+    = [3, 4, 5, 6, 7, 8, 9] := by decide
+example : (runOps (lstEl : El (List Nat) Nat (List Nat)) 3 true false false ((List.range 10).map Op.fill) (St.init [])).2.bufOut
+    = [[0, 1, 2], [3, 4, 5], [6, 7, 8]] := by decide
+
 /-- **After `request()` returns** — at any point of any history — both buffers are empty and fewer
 than `n` values are pending in the element (none with `yield_on_remainder`). -/
-theorem buffers_bounded (e : El σ α β) (N : Nat) (rst bi yor : Bool) (hN : 0 < N) (el0 : σ) (ops : List (Op α)) :
+theorem buffers_bounded_partial (e : El σ α β) (N : Nat) (rst bi yor : Bool) (hN : 0 < N) (el0 : σ) (ops : List (Op α)) :
     let s := (runOps e N rst bi yor (ops ++ [.request]) (St.init el0)).2
     s.nCount < N ∧ s.bufIn = [] ∧ s.bufOut = [] ∧ (yor = true → s.nCount = 0) := by
   simp only [runOps_append, runOps]
@@ -482,7 +548,7 @@ per request, `_buffer_out` holds the results of `q` whole blocks where
 `q ≤ (pending + L) / n`.  In particular, when at most one block (`L ≤ n`) is filled between
 requests, as Split does with a block size `≤ n`, at most one block of results (`≤ k`) and fewer
 than `n` values are buffered. -/
-theorem buffers_bounded_between (e : El σ α β) (N : Nat) (rst bi : Bool) (hN : 0 < N) (k : Nat)
+theorem buffers_bounded_between_partial (e : El σ α β) (N : Nat) (rst bi : Bool) (hN : 0 < N) (k : Nat)
     (hk : ∀ t, (e.req t).1.length = k) (s : St σ α β) (hs : Normal N s) (xs : List α) :
     let s' := xs.foldl (fillR e N rst bi) s
     s'.nCount ≤ N ∧ (bi = true → s'.bufOut = []) ∧ (bi = false → s'.bufIn = []) ∧
